@@ -227,15 +227,18 @@ CHECKS = [
         "statement). Real-number axioms as C04.",
         "machine-checked proof (Coq: exact term layer + real-number layer) + model/implementation correspondence by vm_compute (recorded terms, hash image) + numeric validation tests", "DESIGN.md section 5, C12"),
     chk("C19",
-        "The faithful LTS models of the current code refute the property (Coq theorems c19_visit_returns_normally_refuted, "
-        "c19_visit_hangs_refuted/deadlock, c19_walk_hangs_refuted, each a concrete schedule evaluated by the kernel); the "
-        "witnesses are reproduced on the implementation on every run and are listed in known_findings.json (9 keys: "
-        "stage x {returned-normally, hang}). Proved for every schedule: crash_visible (a raising item was handed out iff "
-        "some worker has exit status 1), i.e. what a repair must inspect. Any other outcome class, stage or a serial-mode "
-        "swallow is reported as a violation.",
-        "Trusted: as C03/C01. The repair (liveness/exit-status checks plus queue teardown) was judged not small and safe; "
-        "see DESIGN.md section 6.",
-        "machine-checked refutation witnesses + invariant proof (Coq) + fault-injection correspondence under a deterministic scheduler",
+        "The faithful LTS models of the current code refute the property; the refutation is proved in general, not only by "
+        "witnesses. Walk (for every pyramid, every set of raising positions, every schedule): after a raising callback "
+        "DReturned is unreachable for ever (walk_crash_never_returns), a crash is equivalent to some worker having exit status "
+        "1 (walk_crash_visible), and only boundedly many non-polling steps remain, i.e. the dispatcher ends up polling for ever "
+        "(walk_crash_eventually_only_polling). Producer/worker stages: crash_visible for every schedule, and kernel-evaluated "
+        "witnesses for 'returns normally' and 'blocks in put()'. All nine (stage x outcome) findings are reproduced on the "
+        "implementation on every run and listed in known_findings.json; any other outcome class or stage, a serial-mode "
+        "swallow, or a producer-side error (failing image load / tile filter during dispatch) that does not reach the caller "
+        "is reported as a violation.",
+        "Trusted: as C03/C01. The repair (liveness/exit-status checks at five call sites plus queue teardown on failure) was "
+        "judged not small and safe; see DESIGN.md section 9.1.",
+        "machine-checked proof of the refutation (Coq LTS invariants for arbitrary raising sets + witnesses) + fault-injection correspondence under a deterministic scheduler",
         "DESIGN.md section 5, C19"),
 ]
 
